@@ -232,9 +232,9 @@ def run_impl(exe, pid, lines, deadline_ms=10000, env=None, cwd=None):
 
 def load_known():
     known, fixed = [], []
-    p = os.path.join(ROOT, "KNOWN_FINDINGS.txt")
-    if os.path.exists(p):
-        for l in open(p):
+    d = os.path.join(ROOT, "findings")
+    for fn in sorted(os.listdir(d)) if os.path.isdir(d) else []:
+        for l in open(os.path.join(d, fn)):
             l = l.strip()
             m = re.match(r"known:\s+property=(\S+)\s+key=(\S+)\s+(.*)", l)
             if m:
@@ -430,3 +430,20 @@ def correspond(c, label, cases, impl, model, describe=None, limit=5):
         c.broken.append({"kind": "correspondence", "where": label, "theorem": "correspondence " + label,
                          "mismatches": len(bad), "examples": ex, "log": ""})
     return bad
+
+
+def ipc_cleanup():
+    """Remove SysV segments / semaphores left behind by killed drivers (keys 0x56xxxxxx / 0x57xxxxxx, no attachments)."""
+    rc, out = sh("ipcs -m")
+    for l in out.split("\n"):
+        f = l.split()
+        if len(f) >= 6 and f[0].startswith("0x56") and f[5] == "0":
+            sh(["ipcrm", "-m", f[1]])
+    rc, out = sh("ipcs -s")
+    for l in out.split("\n"):
+        f = l.split()
+        if len(f) >= 2 and f[0].startswith("0x57"):
+            # only remove when no driver is running
+            rc2, ps = sh("pgrep -f build/implrun")
+            if not ps.strip():
+                sh(["ipcrm", "-s", f[1]])
